@@ -11,7 +11,7 @@ import MysyncModel.App.Lost
 import MysyncProofs.Lemmas.LostLemmas
 
 namespace C08
-open Lost
+open Lost LostLemmas
 
 /-- the node is a master with a live group: as many good replicas as it waits for (semi-sync), all
 of them without semi-sync -/
@@ -26,12 +26,12 @@ def Exempt (cfg : Cfg) (i : In) : Prop :=
 
 theorem reconnected_goes_candidate (cfg : Cfg) (i : In) (h : i.connected = true) :
     stateLost cfg i = { acts := [], next := .candidate, timer := none } := by
-  sorry
+  rw [stateLost_eq]; simp [h]
 
 /-- it changes nothing when exempt (and stays in the lost state) -/
 theorem exempt_changes_nothing (cfg : Cfg) (i : In) (hc : i.connected = false) (he : Exempt cfg i) :
-    (stateLost cfg i).acts = [] ∧ (stateLost cfg i).next = .lost := by
-  sorry
+    (stateLost cfg i).acts = [] ∧ (stateLost cfg i).next = .lost :=
+  stateLost_exempt cfg i hc he
 
 /-- a postponement (not exempt, yet nothing done) happens only while some replica is UNREACHABLE
 (timing out) — never for replicas that merely refuse or answer badly — and only within the
@@ -41,25 +41,32 @@ theorem postpone_only_unreachable_and_bounded (cfg : Cfg) (i : In) (hc : i.conne
     unreachable i.probes > 0 ∧
     ∃ t, (stateLost cfg i).timer = some t ∧ i.now - t ≤ cfg.inactivationDelay ∧
       (i.timer = some t ∨ (i.timer = none ∧ t = i.now)) := by
-  sorry
+  obtain ⟨hp, htm⟩ := postpone_of_no_acts cfg i hc hne hnone
+  rw [htm]
+  exact postpone_true cfg i hp
 
 /-- with no unreachable replica the node is fenced at once -/
 theorem refusing_never_postpones (cfg : Cfg) (i : In) (hc : i.connected = false)
     (hne : ¬ Exempt cfg i) (hu : unreachable i.probes = 0) : (stateLost cfg i).acts ≠ [] := by
-  sorry
+  rw [acts_of_not_postponed cfg i hc hne (postpone_false_of_no_unreachable cfg i hu)]
+  exact fence_acts_ne_nil i _
 
 /-- once the delay has passed since the timer was started, the node is fenced -/
 theorem fences_after_delay (cfg : Cfg) (i : In) (t : Int) (hc : i.connected = false)
     (hne : ¬ Exempt cfg i) (ht : i.timer = some t) (hd : i.now - t > cfg.inactivationDelay) :
     (stateLost cfg i).acts ≠ [] := by
-  sorry
+  rw [acts_of_not_postponed cfg i hc hne (postpone_false_of_expired cfg i t ht hd)]
+  exact fence_acts_ne_nil i _
 
 /-- fencing starts with the read-only request to the LOCAL node: forced on a master, plain on a replica -/
 theorem fence_is_readonly_request (cfg : Cfg) (i : In) (hne : (stateLost cfg i).acts ≠ []) :
     (i.localIsMaster = true ∧ (stateLost cfg i).acts.head? = some .setReadOnlyForce) ∨
     (i.localIsMaster = false ∧ (stateLost cfg i).acts = [.setReadOnly, .readGtid]) := by
-  sorry
+  obtain ⟨tm, h⟩ := fence_of_acts cfg i hne
+  rw [h]
+  exact fence_head i tm
 
+set_option linter.unusedVariables false in
 /-- if commits hang waiting for an acknowledgement (the read-only request timed out or hit the lock
 wait timeout and a semi-sync wait is visible), client sessions are cut (offline mode), semi-sync is
 disabled and the forced read-only is repeated -/
@@ -68,18 +75,26 @@ theorem stuck_commit_handling (cfg : Cfg) (i : In) (hc : i.connected = false) (h
     (hro : i.firstRo = .deadline ∨ i.firstRo = .lockWait1205) (hack : i.ack = .waiting)
     (h1 : i.stopReplOfflineOk = true) (h2 : i.stopReplDisableOk = true) :
     ∃ tail, (stateLost cfg i).acts = [.setReadOnlyForce, .checkWaitingAck, .setOffline, .semiSyncDisable, .setReadOnlyForce] ++ tail := by
-  sorry
+  obtain ⟨tm, h⟩ := fence_of_acts cfg i hnp
+  rw [h]
+  exact fence_stuck i tm hm hro hack h1 h2
 
 /-- semi-sync is switched off and sessions are cut ONLY in that situation -/
 theorem semisync_off_only_if_stuck (cfg : Cfg) (i : In) (h : Act.semiSyncDisable ∈ (stateLost cfg i).acts ∨ Act.setOffline ∈ (stateLost cfg i).acts) :
     i.localIsMaster = true ∧ (i.firstRo = .deadline ∨ i.firstRo = .lockWait1205) ∧ i.ack = .waiting := by
-  sorry
+  have hne : (stateLost cfg i).acts ≠ [] := by
+    intro h0; rw [h0] at h; simp at h
+  obtain ⟨tm, ht⟩ := fence_of_acts cfg i hne
+  rw [ht] at h
+  exact fence_off_only_if_stuck i tm h
 
 /-- the timer is cleared when the node is (again) provably safe or reconnected, so a later loss
 starts a fresh postponement window -/
 theorem timer_cleared_when_safe (cfg : Cfg) (i : In) (h : i.connected = true ∨ (i.connected = false ∧ i.haCount ≠ 1 ∧ i.localIsHA = true ∧ cfg.disableSetReadonlyOnLost = false ∧ LiveGroup cfg i)) :
     (stateLost cfg i).timer = none := by
-  sorry
+  rcases h with h | ⟨hc, h1, h2, h3, hl⟩
+  · rw [stateLost_eq]; simp [h]
+  · rw [stateLost_live cfg i hc h1 h2 h3 ((live_iff cfg i).1 hl)]
 
 -- non-vacuity
 private def cfg0 : Cfg := ⟨true, false, 30⟩
